@@ -456,6 +456,52 @@ func runC09(c *core.Ctx) {
 			}
 		}
 	}
+	// values that are a fragment of a number - a lone sign, a lone point, an exponent without digits, a sign after the
+	// digits (round 13, L09: a hand-written conversion for short integers took a lone '+' for 0): with and without the
+	// colon, in the log and in the book, each reported by lint and refused by the commands with its line
+	{
+		srv := pool.Servers[0]
+		for fi, frag := range []string{"+", ".", "+.", "-.", "e", "e5", "+e1", ".e1", "1e+", "1e-", "+-1", "-+1", "1+", "0x", "++", "+٣", "1..", "..1"} {
+			for vi, line := range []string{"  sugar: " + frag, "  sugar " + frag, "  - sugar: " + frag, "\tsugar tea:  " + frag} {
+				if strings.Contains(frag, " ") && vi == 1 {
+					continue
+				}
+				logText := "2021/01/01:\n  bread: 2\n" + line + "\n  milk: 1\n2021/01/02:\n  ok: 1\n"
+				bookText := "bread:\n  kcal: 2\n" + line + "\nmilk:\n  kcal: 1\n"
+				planted := [2]string{"3", line}
+				srv.Write(map[string]string{"frag-log.yaml": logText, "frag-book.yaml": bookText, "good-log.yaml": "2021/01/01:\n  bread: 2\n", "good-book.yaml": "bread:\n  kcal: 2\n"})
+				c.Count("fragment_of_a_number_as_value_cases", 1)
+				c.Nontrivial("fragment", fmt.Sprint(fi, vi))
+				for _, f := range []string{"frag-log.yaml", "frag-book.yaml"} {
+					lr := srv.App1([]string{"--no-color", "lint", f}, nil)
+					c.Eval(1)
+					var msgs []string
+					for _, ln := range obs.Lines(lr.Out) {
+						if ln != "No errors found" {
+							msgs = append(msgs, ln)
+						}
+					}
+					if len(msgs) != 1 || !mentionsLine(msgs[0], planted[0], planted[1]) || strings.Contains(lr.Out, "No errors found") {
+						c.Violation("lint|message-content", fmt.Sprintf("%d messages %q for the one malformed line %s %q (value %q is not a number)", len(msgs), clip(lr.Out, 200), planted[0], planted[1], frag),
+							caseDoc{Files: map[string]string{f: map[string]string{"frag-log.yaml": logText, "frag-book.yaml": bookText}[f]}, Args: []string{"--no-color", "lint", f}, Observed: resDoc(lr)})
+					}
+				}
+				for ci, cmd := range [][]string{{"-d", "good-book.yaml", "-l", "frag-log.yaml", "reg"}, {"-d", "good-book.yaml", "-l", "frag-log.yaml", "bal"}, {"-d", "good-book.yaml", "-l", "frag-log.yaml", "csv", "log"}, {"-l", "frag-log.yaml", "print"},
+					{"-d", "frag-book.yaml", "-l", "good-log.yaml", "reg"}, {"-d", "frag-book.yaml", "csv", "database"}, {"-d", "frag-book.yaml", "-l", "good-log.yaml", "report", "totals"}} {
+					if (fi+vi+ci)%2 == 1 && c.Quick() {
+						continue
+					}
+					args := append([]string{"--no-color"}, cmd...)
+					res := srv.App1(args, nil)
+					c.Eval(1)
+					if res.Exit == 0 || !mentionsLine(res.ErrText(), planted[0], planted[1]) {
+						c.Violation(strings.Join(cmd[len(cmd)-1:], " ")+"|malformed-line-accepted", fmt.Sprintf("%s: exit %d, message %q: line %s %q is malformed (value %q is not a number)", joinArgs(cmd), res.Exit, clip(res.ErrText(), 200), planted[0], planted[1], frag),
+							caseDoc{Files: map[string]string{"frag-log.yaml": logText, "frag-book.yaml": bookText}, Args: args, Observed: resDoc(res)})
+					}
+				}
+			}
+		}
+	}
 	jobs, deaths := pool.Stats()
 	c.Count("l2_jobs", jobs)
 	c.Count("l2_process_deaths", deaths)
